@@ -225,17 +225,16 @@ SetToSeq(S) == IF S = {} THEN <<>> ELSE LET x == CHOOSE y \in S : TRUE IN <<x>> 
 HasPayload(r)   == r.payload = "present"
 V4Attempt(r)    == HasPayload(r) /\ r.v4 = "true" /\ r.regaddr \in {"len4", "len16m"}
 V6Attempt(r)    == HasPayload(r) /\ r.v6 = "true"
-ParamsFit(r)    == \/ r.pbytes = "nil"
-                   \/ /\ r.transport \in {"min", "obfs4"} /\ r.purl \in {"generic", "none"} /\ r.pbytes \in {"generic", "generic_rand", "empty"}
-                   \/ /\ r.transport = "prefix" /\ r.purl \in {"prefix", "none", "tapdance"} /\ r.pbytes \in {"prefix_known"}
-                   \/ /\ r.transport = "dtls" /\ r.purl \in {"dtls", "none"} /\ r.pbytes \in {"dtls_addrs", "dtls_noaddrs", "dtls_badaddrs", "empty"}
 \* the HTTP envelope lets the handler reach the registration logic
 HttpEnvelopeOK(r) == r.method = "POST" /\ r.path = "exact" /\ r.body \in {"exact", "huge"}
 HttpEnvelopeBad(r) == r.method # "POST" \/ r.path # "exact" \/ r.body \in {"empty", "len32", "garbage", "truncated", "nolength", "lying_longer"}
 \* the DNS envelope lets the responder reach decryption / the registrar
 DnsEnvelopeOK(r) == /\ r.qr = "query" /\ r.opcode = "query" /\ r.qd = "one" /\ r.opt = "one" /\ r.optver = "v0"
-                    /\ r.optsize \in {"s4096", "s1232", "s65535"} /\ r.optrd # "overrun" /\ r.suffix \in {"right", "mixedcase"}
+                    /\ r.optsize \in {"s4096", "s1232", "s65535"} /\ r.suffix \in {"right", "mixedcase"}
                     /\ r.qtype = "txt" /\ r.name \in {"labels", "small", "ptr_suffix", "ptr_chain10"} /\ r.b32 \in {"valid", "lower", "badlen"}
+\* section counts or a record length that lie about what follows: which records the parser ends up with depends on the
+\* bytes behind them (an OPT record whose RDLENGTH overruns swallows the next record) - no outcome is excluded
+DnsUnpredictable(r) == r.optrd = "overrun" \/ r.qd \in {"hdr_more", "hdr_less"}
 \* the length prefix hands the Noise layer exactly one well-formed message, and what it decrypts to decodes as a wrapper
 \* (a wrapper the registrar refuses is still ANSWERED - with success = false inside the encrypted response)
 DnsPayloadOK(r)  == /\ \/ r.lenprefix = "ok" /\ r.noise = "valid"
@@ -274,7 +273,8 @@ Trigger(g, e, r) ==
   CASE g = "api.bd.payload_nil"    -> e = "api" /\ HttpEnvelopeOK(r) /\ r.endpoint = "bd" /\ r.payload = "absent" /\ r.clientconf # "absent"
                                       /\ r.secret \in {"exact32", "len33"}    \* the body must reach the minimum request length;
                                       \* without a payload the client's generation reads as 0: any server ClientConf is newer
-    [] g = "regproc.bdreq.c2s_nil" -> e \in {"api", "dnsreg", "regproc"} /\ RegistrarBd(e, r) /\ r.payload = "absent"
+    [] g = "regproc.bdreq.c2s_nil" -> e \in {"api", "dnsreg", "regproc"} /\ RegistrarBd(e, r)
+                                      /\ (r.payload = "absent" \/ (e = "regproc" /\ r.wrapper = "nil"))
                                       /\ (e = "api" => r.clientconf = "absent" /\ r.secret \in {"exact32", "len33"})
     [] g = "regproc.c2sw.nil"      -> e = "regproc" /\ r.wrapper = "nil" /\ r.op \in {"uni", "c2sw"}
     [] g = "station.rr.ip4_nil"    -> e = "station.ingest" /\ V4Attempt(r) /\ r.rr \in {"present", "empty"} /\ (r.rr = "empty" \/ r.rr_ip4 = "absent")
@@ -317,8 +317,8 @@ MustReject(e, r) ==
                                \/ r.secret \in {"absent", "empty", "len7"}
     [] e = "dnsreg"         -> \/ (r.source = "bddns" /\ r.payload = "absent")
                                \/ r.secret \in {"absent", "empty", "len7"}
-    [] e = "responder"      -> \/ ~DnsEnvelopeOK(r)
-                               \/ ~DnsPayloadOK(r)
+    [] e = "responder"      -> /\ ~DnsUnpredictable(r)
+                               /\ (~DnsEnvelopeOK(r) \/ ~DnsPayloadOK(r))
     [] OTHER                -> FALSE
 
 Expect(e, r) == IF Nominal(e, r) THEN {"accepted"}
